@@ -354,13 +354,15 @@ Definition monitor_C03 (R : cid -> sres) (reqs : list rreq) (tl : list (sact * l
 
 Definition rcase_mon03 (c : rcase) : bool := monitor_C03 (sto (rc_store c)) (rc_reqs c) (rc_tl c).
 
-(* C24, responder half, on the wire alone: no block at an index the requestor asked to skip, and no
-   block twice within one request *)
+(* C24, responder half, on the wire alone: no block at an index the requestor asked to skip, no
+   block twice within one request, and no block the request's do-not-send-cids list names *)
 Definition mon24_req (tl : list (sact * list wmsg)) (q : rreq) : bool :=
   let ms := msgs_of (rq_id q) tl in
   let skip := match rq_skip q with Some n => n | None => 0 end in
+  let ignl := match rq_ignore q with Some ls => ls | None => [] end in
   forallb (fun m => match wm_blocks m with [] => true | _ => forallb (fun i => skip <? i) (wm_idx m) end) ms &&
-  nodupb (concat (map wm_blocks ms)).
+  nodupb (concat (map wm_blocks ms)) &&
+  forallb (fun c => negb (existsb (N.eqb c) ignl)) (concat (map wm_blocks ms)).
 Definition rcase_mon24 (c : rcase) : bool := forallb (mon24_req (rc_tl c)) (rc_reqs c).
 
 (* constructors used by the generated cases files *)
